@@ -15,7 +15,7 @@ EXHAUSTIVE = {"thorough": "all payload lengths 0..300 and 16380..16390 for a bin
 
 def raw_doc(rng, sp):
     """document with raw tags (ids outside the specification, well-formed) sprinkled in; read with unknown ids allowed"""
-    nodes = fix_widths(E.rand_doc(rng, sp, big=False, unknown_ok=False))
+    nodes = fix_widths(E.rand_doc(rng, sp, big=False, unknown_ok=True, unknown_p=0.4))
     def sprinkle(ns):
         out = []
         for n in ns:
@@ -27,7 +27,13 @@ def raw_doc(rng, sp):
                 n = E.Node(n.tag, n.enc, sprinkle(n.children))
             out.append(n)
         return out
-    return fix_widths(sprinkle(nodes))
+    for _ in range(20):
+        out = fix_widths(sprinkle(nodes))
+        # a raw (unknown) element directly after an unknown-size master at the same level cannot be told from a child of that
+        # master — the same inherent ambiguity as for global elements
+        if E.unambiguous(sp, out):
+            return out
+    return fix_widths(strip_enc(nodes))
 
 
 def generate(rng, tier):
@@ -60,8 +66,18 @@ def generate(rng, tier):
     return cases
 
 
+def tags_of(case):
+    if "tags" in case.meta:
+        return case.meta["tags"]
+    out = []
+    for op in case.lines[0].split(" ")[2].split(","):
+        if op.startswith("w") and len(op) > 3 and op[2] == ":":
+            out.append(op[3:])
+    return out
+
+
 def nontrivial(case, model_out):
-    return case.meta["nodes"] >= 3
+    return case.meta.get("nodes", len(tags_of(case))) >= 3
 
 
 def close_all(tags):
@@ -85,7 +101,7 @@ def oracle(case, outs):
     if any(not x.startswith("OK@") for x in wt):
         return "the writer rejected a call of a conformant sequence: %s -> %s" % (case.lines[0][:400], " ".join(wt))
     tags, term = item_tags(p[2].split(" "))
-    want = close_all(E.flat([E.parse_tag(s) for s in case.meta["tags"]]))
+    want = close_all(E.flat([E.parse_tag(s) for s in tags_of(case)]))
     if term != ("none",):
         return "reading the writer's output failed: %s  [%s] bytes %s" % (term, case.lines[0][:300], p[1][:200])
     if not tags_equal(tags, want):
